@@ -215,7 +215,7 @@ func emptyStates(n int) []world.RepState {
 	out := make([]world.RepState, n)
 	for i := range out {
 		out[i] = world.RepState{Ents: []int{}, Heads: []int{}, RawHeads: []int{}, SnapHeads: []int{}, JSONHeads: []int{},
-			Values: []int{}, SnapValues: []int{}, Nidx: []int{}, Digs: []int{}, GetDigs: []int{}, VDigs: []int{}, OrigDigs: []int{}, Bad: []world.BadRec{}, StrIDs: []int{}, StrDepth: []int{}}
+			Values: []int{}, SnapValues: []int{}, Nidx: []int{}, Digs: []int{}, LDigs: []int{}, GetDigs: []int{}, VDigs: []int{}, OrigDigs: []int{}, Bad: []world.BadRec{}, StrIDs: []int{}, StrDepth: []int{}}
 	}
 	return out
 }
